@@ -23,7 +23,7 @@ BOUNDS = {"quick": "solve: abc explicit/generated, at explicit, conn2/ab generat
           "thorough": "solve: + abt, abct, diamonds, conn2/abc generated; select: + 3-rule configurators"}
 OBJECTIVES = [{}, {"a": 1}, {"a": -1, "b": 2}, {"a": 1, "b": 1, "c": 1, "t": 1}, {"a": -1, "b": -1, "c": -1, "t": -2}, {"B": 3, "a": -1},
               {"nope": 4}, {"c": 2, "t": -1, "A": 1}]
-QUICK = ["abc/explicit", "abc/generated", "at/explicit", "conn2/ab/generated"]
+QUICK = ["abc/explicit", "abc/generated", "ab/varnamed", "at/explicit", "conn2/ab/generated"]
 THOROUGH = QUICK + ["abt/explicit", "abct/explicit", "diamond/explicit", "diamond/generated", "conn2/abc/generated"]
 
 
